@@ -307,7 +307,9 @@ def check_reassembly(ctx):
 
 def run(ctx):
     check_header(ctx)
-    check_split(ctx)
+    from .. import refmodels
+
+    refmodels.deferred(ctx, "C16.P1", ["Message._split_blocks"], check_split)
     _block.check_checksum(ctx, "C16.P2")
     _block.check_block_encode(ctx, "C16.P2")
     _block.check_block_decode(ctx, "C16.P2")
